@@ -595,6 +595,7 @@ func (db *MultiBucketBackend) PutObject(
 			return result, err
 		}
 	}
+	verifhook.At("fs.put.after-mkdir")
 	if err := db.baseFs.Rename(tmpFilePath, filepath.Join(multiBucketsDir, objectFilePath)); err != nil {
 		db.metaStore.discardStagedMeta(metaPath)
 		removeEmptyDirs(db.bucketFs, bucketName, path.Dir(objectName))
@@ -651,6 +652,7 @@ func (db *MultiBucketBackend) deleteObjectLocked(bucketName, objectName string) 
 	if err := db.bucketFs.Remove(filepath.FromSlash(fullPath)); err != nil && !isNotExist(err) {
 		return err
 	}
+	verifhook.At("fs.delete.before-prune")
 	removeEmptyDirs(db.bucketFs, bucketName, path.Dir(objectName))
 	verifhook.At("fs.delete.between")
 
